@@ -36,7 +36,8 @@ CONSTANTS Fls,                       \* flavours explored
                                      \*  "docs_stale_index"   remove_document forgets the moved document's index
                                      \*  "irs_rereg"          add_identity does not look at the recovery link
                                      \*  "modules_cap_gt"     add_module_to tests len > limit
-          Depth, EmitEvery
+          DpKeys, DpCti, DpBinder, DpDocs, DpIrs, DpModules,   \* bound on the number of calls, per flavour
+          EmitEvery
 
 VARIABLES fl, st, g, viol, hist
 
@@ -373,6 +374,9 @@ Obs(f, s) ==
 Ops(f) ==
   CASE f = "keys" -> OpsKeys [] f = "cti" -> OpsCti [] f = "binder" -> OpsBinder
     [] f = "docs" -> OpsDocs [] f = "irs" -> OpsIrs [] f = "modules" -> OpsModules
+
+Depth == CASE fl = "keys" -> DpKeys [] fl = "cti" -> DpCti [] fl = "binder" -> DpBinder
+           [] fl = "docs" -> DpDocs [] fl = "irs" -> DpIrs [] fl = "modules" -> DpModules
 
 Init == /\ fl \in Fls
         /\ st = InitSt(fl)
